@@ -24,7 +24,7 @@ TECH = {
  'C11': 'static analysis: sibling dispatch agreement across the six executeMore switches (labels, kernels, canonical conversions); append protocol of the string-result overloads; wrapper rule for the typed helper families; body equality modulo the sink for the 50 string / character-events overload pairs of the conversion library',
  'C12': 'static analysis: CFG must-pass-through of the order flag in axis functions; who-may-call for raw addNode; dominating-justification rule for whole-range transfers in the ordered merge; interpretation of the ordered insert (binary and linear search, predicates) on all bounded insertion sequences over two documents, and of the structural document-order comparison on all node pairs of small trees',
  'C13': 'static analysis: who-may-call for strip-unaware text access; CFG guard dominance of text sinks; interpretation of the declaration ordering; return-value provenance of the strip decision chain; pattern step verdicts only from NodeTester',
- 'C16': 'static analysis: stable_sort call rule + finite-domain interpretation of the key comparator and of the per-(key, node) value caches; scope and re-entrancy rules for the sorter',
+ 'C16': 'static analysis: stable_sort call rule + finite-domain interpretation of the key comparator of the per-(key, node) value caches and of a whole sort end to end (scratch vector, comparator object, copy back) against the XSLT 1.0 ordering; scope and re-entrancy rules for the sorter',
  'C19': 'static analysis: destructor-reachable allocation over the call graph, placement-new pairing, manager agreement, new/delete confinement, ownership analysis of pointer containers (removal and keyed-store sites), construct-to-owner path rule for XalanConstruct',
 }
 import re
